@@ -221,6 +221,7 @@ CASADI_ALIAS = {
     "if_else": "ite",
     "vcat": "vcat_list",
     "vertcat": "vcat_args",
+    "veccat": "vcat_args",
 }
 
 
@@ -516,8 +517,16 @@ class Interp:
             return FuncV(self.prog.function(mod, q))
         return ExtMod(full)
 
+    def _abstract_iter(self, it, node):
+        """a per-node link view iterated without a node = all links of the network"""
+        w = self.world
+        if w is not None and type(it).__name__ == "AbsView" and getattr(it, "kind", "") in ("in", "out") \
+                and hasattr(w, "all_links_collection"):
+            return w.all_links_collection(self, node)
+        return it
+
     def exec_for(self, st: ast.For, fr: Frame):
-        it = self.eval(st.iter, fr)
+        it = self._abstract_iter(self.eval(st.iter, fr), st.iter)
         if st.orelse:
             raise self.err(st, "for-else not supported")
         if isinstance(it, Coll) and it.card == "many":
@@ -1333,7 +1342,7 @@ class Interp:
                 out.append(body(sub))
                 return
             g = n.generators[i]
-            it = self.eval(g.iter, sub)
+            it = self._abstract_iter(self.eval(g.iter, sub), g.iter)
             if isinstance(it, Coll) and it.card == "many":
                 if len(n.generators) != 1:
                     raise self.err(n, "nested comprehension over an abstract collection")
